@@ -426,6 +426,81 @@ PLAN_PROCS = {
 }
 
 
+def _inmemory_job(args):
+    """InMemoryCache keeps values per thread: callers on other threads never matter to what a thread sees. Threads that share ONE
+    InMemoryCache (and reach the same sub-cache by name, as `cached` does) each compute a key once - a call that starts after an earlier
+    call of the same thread has returned gets that value. Every interleaving at SOURCE-LINE granularity inside taskchain/cache.py with at
+    most `bound` preemptions; root=None: the default schedule only, returning the subtree roots."""
+    import tcv
+    import taskchain.cache as cache
+
+    tcv.quiet_library()
+    nthreads, bound, root = args
+    res = Result()
+    roots = []
+
+    def make(choices):
+        shared = cache.InMemoryCache()
+        counts = {}
+
+        def body_for(name):
+            def body():
+                def computer():
+                    counts[name] = counts.get(name, 0) + 1
+                    return (name, counts[name])
+                a = shared.subcache('features').get_or_compute('k', computer)
+                b = shared.subcache('features').get_or_compute('k', computer)
+                c = shared.subcache('features').get('k')
+                return [a, b, c]
+            return body
+        r = sched.Run('/nonexistent', [(n, body_for(n), None) for n in 'ABC'[:nthreads]], choices, horizon=20000, trace_files=(cache.__file__,)).execute()
+        r.counts = counts
+        return r
+
+    if root is None:
+        first = make([])
+        roots = sched.children(first, 0, bound)
+        runs = [first]
+    else:
+        runs = sched.explore(make, bound, root=root)
+    outcomes = set()
+    for r in runs:
+        res.add('evaluations')
+        res.add('schedules')
+        res.add('transitions', len(r.points))
+        for w in r.workers:
+            got = w.result[1] if w.result[0] == 'ok' else repr(w.result)
+            outcomes.add(repr((w.name, got)))
+            if got != [(w.name, 1)] * 3 or r.counts.get(w.name) != 1:
+                res.violations.append(Violation('H12: a call that starts after an earlier call of the same thread has returned recomputes / misses the value',
+                                                f'{nthreads} threads on one InMemoryCache, each: subcache(features).get_or_compute(k) twice, then get(k); schedule '
+                                                f'{[p["chosen"] for p in r.points if p["n"] > 1]}: thread {w.name} got {got}, computed {r.counts.get(w.name)} time(s)',
+                                                {'harness': 'H12-inmemory', 'nthreads': nthreads, 'bound': bound}))
+                break
+        if len(res.violations) >= 5:
+            break
+    res.coverage['_h12'] = sorted(outcomes)
+    return res, roots
+
+
+def inmemory_threads(tier):
+    res = Result()
+    plan = [(2, 2)] if tier == 'quick' else [(2, 3), (3, 2)]
+    jobs = []
+    outcomes = set()
+    for (n, b), (r, roots) in zip(plan, pmap(_inmemory_job, [(n, b, None) for n, b in plan])):
+        outcomes |= set(r.coverage.pop('_h12', []))
+        res.merge(r)
+        jobs += [(n, b, root) for root in roots]
+    for r, _ in pmap(_inmemory_job, jobs, chunksize=4):
+        outcomes |= set(r.coverage.pop('_h12', []))
+        res.merge(r)
+    res.coverage.pop('_h12', None)
+    res.coverage['inmemory_threads'] = {'plan (threads, preemption bound)': plan, 'schedules': res.coverage.pop('schedules', 0), 'granularity': 'source line in taskchain/cache.py',
+                                        'distinct_outcomes': len(outcomes)}
+    return res
+
+
 def run(tier, seed):
     import tcv
 
@@ -446,6 +521,7 @@ def run(tier, seed):
         res.merge(r)
     for r in pmap(_explore_two_keys, [(2 if tier == 'quick' else 3, 'json'), (2, 'numpy')]):
         res.merge(r)
+    res.merge(inmemory_threads(tier))
     res.coverage['two_keys_one_bucket'] = {k.split('/')[-1]: res.coverage.pop(k) for k in list(res.coverage) if k.startswith('harness:H9-two-keys/')}
     outs = res.coverage.pop('_outcomes', [])
     per = {h: res.coverage.pop(f'harness:{h}') for h, b, e in plan}
@@ -482,6 +558,8 @@ def replay(case):
     import tcv
 
     tcv.quiet_library()
+    if case.get('harness') == 'H12-inmemory':
+        return inmemory_threads('quick').violations
     if case.get('harness') == 'H9-two-keys':
         run, finals = execute_two_keys(case['choices'], case.get('ctype', 'json'))
         return [Violation(f'H9: {k}', m, case) for k, m in judge_two_keys(run, finals, case.get('ctype', 'json'))]
